@@ -16,7 +16,7 @@ def Out.isValueOrError {α : Type} : Out α → Bool
 
 /-- a value/error outcome comes with no lock held -/
 def HeldOK {α : Type} (r : St D × Out α) : Prop :=
-  (r.2.isValueOrError = true → r.1.held = []) ∧ r.2 ≠ .deadlock .other
+  (r.2.isValueOrError = true → r.1.held = []) ∧ r.2 ≠ .deadlock .other ∧ r.2 ≠ .livelock
 
 theorem heldOK_of_eq {α : Type} {x : St D × Out α} {st : St D} {o : Out α} (h : HeldOK x)
     (he : x = (st, o)) (ho : o.isValueOrError = true) : st.held = [] := by
@@ -31,22 +31,38 @@ theorem runAction_no_deadlock (ops : DoubleOps D) (cells : Cells D) (name : Str)
     | (generalize dataToString ops _ _ = x; cases x <;> (intro h; cases h))
     | (simp only []; split <;> (intro h; cases h))
 
+theorem runAction_no_livelock (ops : DoubleOps D) (cells : Cells D) (name : Str)
+    (ds : List (Data D)) : runAction ops cells name ds ≠ .livelock := by
+  unfold runAction
+  repeat' split
+  all_goals first
+    | (intro h; cases h; done)
+    | (generalize dataToString ops _ _ = x; cases x <;> (intro h; cases h))
+    | (simp only []; split <;> (intro h; cases h))
+
 set_option maxHeartbeats 4000000 in
 theorem eval_held_all (ops : DoubleOps D) :
     (∀ e au (st : St D), st.held = [] → HeldOK (eval ops e au st)) ∧
-    (∀ es au (st : St D) r, st.held = [] → r ≠ .deadlock .other → HeldOK (evalSeq ops es au st r)) ∧
+    (∀ es au (st : St D) r, st.held = [] → r ≠ .deadlock .other → r ≠ .livelock → HeldOK (evalSeq ops es au st r)) ∧
     (∀ args (st : St D), st.held = [] → HeldOK (evalArgs ops args st)) ∧
     (∀ fs au (st : St D) acc, st.held = [] → HeldOK (evalFields ops fs au st acc)) ∧
     (∀ items au (st : St D), st.held = [] → HeldOK (evalList ops items au st)) := by
   apply eval.mutual_induct ops
     (motive_1 := fun e au st => st.held = [] → HeldOK (eval ops e au st))
-    (motive_2 := fun es au st r => st.held = [] → r ≠ .deadlock .other → HeldOK (evalSeq ops es au st r))
+    (motive_2 := fun es au st r => st.held = [] → r ≠ .deadlock .other → r ≠ .livelock → HeldOK (evalSeq ops es au st r))
     (motive_3 := fun args st => st.held = [] → HeldOK (evalArgs ops args st))
     (motive_4 := fun fs au st acc => st.held = [] → HeldOK (evalFields ops fs au st acc))
     (motive_5 := fun items au st => st.held = [] → HeldOK (evalList ops items au st))
   case case20 =>
     intro name args x st st1 ds hargs s hrun _ _
     exact absurd hrun (runAction_no_deadlock ops _ _ _ _)
+  case case21 =>
+    intro name args x st st1 ds hargs hrun _ _
+    exact absurd hrun (runAction_no_livelock ops _ _ _)
+  case case34 =>
+    intro l i au st st1 ir h1 h2 h3 h4 hl st2 hi ihl ihi hst
+    have hs1 : ir.isValueOrError = true → st1.held = [] := fun ho => heldOK_of_eq (ihl hst) hl ho
+    cases ir <;> simp_all [HeldOK, eval, Out.isValueOrError]
   case case33 =>
     intro l i au st st1 ir h1 h2 h3 h4 hl st2 s hi ihl ihi hst
     have hs1 : ir.isValueOrError = true → st1.held = [] := fun ho => heldOK_of_eq (ihl hst) hl ho
@@ -66,7 +82,7 @@ theorem eval_held_all (ops : DoubleOps D) :
     | mk st2 ol =>
       cases ir <;> cases ol <;> simp_all [HeldOK, eval, Out.isValueOrError]
   case case95 =>
-    intro e rest au st x st1 ir h1 h2 h3 h4 he ihe ihr hst _
+    intro e rest au st x st1 ir h1 h2 h3 h4 he ihe ihr hst _ _
     have hs1 : ir.isValueOrError = true → st1.held = [] := fun ho => heldOK_of_eq (ihe hst) he ho
     cases ir <;> simp_all [HeldOK, evalSeq, Out.isValueOrError]
   case case115 =>
@@ -100,7 +116,8 @@ theorem eval_held_all (ops : DoubleOps D) :
       simp only [St.get] at hop
       simp only [eval, hl, hr]
       simp only [hl3, St.get, hop]
-    refine ⟨?_, ?_⟩
+    refine ⟨?_, ?_, ?_⟩
+    · intro ho; rw [key] at ho; cases ho
     · intro ho; rw [key] at ho; cases ho
     · intro ho; rw [key] at ho; cases ho
   case case81 =>
@@ -111,7 +128,8 @@ theorem eval_held_all (ops : DoubleOps D) :
       simp only [St.get] at hop
       simp only [eval, hl, hr]
       simp only [hl3, St.get, hop]
-    refine ⟨?_, ?_⟩
+    refine ⟨?_, ?_, ?_⟩
+    · intro ho; rw [key] at ho; cases ho
     · intro ho; rw [key] at ho; cases ho
     · intro ho; rw [key] at ho; cases ho
   case case82 =>
@@ -122,7 +140,8 @@ theorem eval_held_all (ops : DoubleOps D) :
       simp only [St.get] at hop
       simp only [eval, hl, hr]
       simp only [hl3, St.get, hop]
-    refine ⟨?_, ?_⟩
+    refine ⟨?_, ?_, ?_⟩
+    · intro ho; rw [key] at ho; cases ho
     · intro ho; rw [key] at ho; cases ho
     · intro ho; rw [key] at ho; cases ho
   case case79 =>
@@ -145,10 +164,12 @@ theorem eval_held_all (ops : DoubleOps D) :
           subst hl3
           simp
     simp only [St.get] at hop
-    refine ⟨?_, ?_⟩
+    refine ⟨?_, ?_, ?_⟩
     · intro _
       simp only [eval, hl, hr, hl3, St.get, hop]
       simp [St.alloc, St.unlock, hheld]
+    · simp only [eval, hl, hr, hl3, St.get, hop]
+      intro ho; cases ho
     · simp only [eval, hl, hr, hl3, St.get, hop]
       intro ho; cases ho
   all_goals (intros; try (simp_all [HeldOK, eval, evalList, evalSeq, evalArgs, evalFields, St.alloc, St.lock, St.unlock, St.setCell, Out.isValueOrError]; done))
@@ -170,7 +191,7 @@ theorem eval_held (ops : DoubleOps D) (e : Expr) (au : Bool) (st : St D) (h : st
 /-- a lock taken while nothing else is held never blocks -/
 theorem eval_no_deadlock_other (ops : DoubleOps D) (e : Expr) (au : Bool) (st : St D)
     (h : st.held = []) : (eval ops e au st).2 ≠ .deadlock .other :=
-  ((eval_held_all ops).1 e au st h).2
+  ((eval_held_all ops).1 e au st h).2.1
 
 theorem held_of_ok (ops : DoubleOps D) {e : Expr} {au : Bool} {st st' : St D} {r : Ref}
     (h : st.held = []) (he : eval ops e au st = (st', .ok r)) : st'.held = [] :=
@@ -219,5 +240,10 @@ theorem index_no_deadlock (ops : DoubleOps D) (l i : Expr) (au : Bool) (st st1 s
     List.contains_cons, Bool.or_false, this]
   repeat' split
   all_goals (intro h; cases h)
+
+/-- the evaluator never produces the parser's `livelock` outcome -/
+theorem eval_no_livelock (ops : DoubleOps D) (e : Expr) (au : Bool) (st : St D)
+    (h : st.held = []) : (eval ops e au st).2 ≠ .livelock :=
+  ((eval_held_all ops).1 e au st h).2.2
 
 end Rfsm.Expr
